@@ -42,12 +42,13 @@ func BadStruct(p pair) int          { return p.a }
 func BadSlice3(b []byte) []byte     { return b[0:1:2] }
 func BadAssignMut(b []byte) int     { b[0] = 1; b = b[1:]; return len(b) }
 func BadGoto(a int) int {
-	if a > 0 {
-		goto end
+	i := 0
+loop:
+	i++
+	if i < a {
+		goto loop
 	}
-	a = 1
-end:
-	return a
+	return i
 }
 func BadFallthrough(a int) int {
 	switch a {
@@ -142,3 +143,13 @@ func BadMutual(a int) int {
 	return badMutual2(a - 1)
 }
 func badMutual2(a int) int { return BadMutual(a) + 1 }
+
+type rec2 struct{ a int }
+
+func (p *rec2) okSet(a int) { p.a = a }
+func BadRecvCall(a int) int {
+	var r rec2
+	r.okSet(a)
+	return r.a
+}
+func BadRecvValue(p *rec2) *rec2 { return p }
